@@ -302,6 +302,10 @@ class ExprMixin:
             m = api.MODELS.get(q)
             if m is None:
                 continue
+            if '_dict' in m.fields:
+                _, fty = self.classes.field(q, '_dict')
+                arr = self.heap_array(st, (q, '_dict'), fty)
+                st.heap[(q, '_dict')] = z3.Store(arr, r.t, empty_map(fty))
             for f, dv in m.defaults.items():
                 _, fty = self.classes.field(q, f)
                 arr = self.heap_array(st, (q, f), fty)
@@ -1015,6 +1019,9 @@ class ExprMixin:
         return v
 
     def getattr_value(self, st, base, attr, node):
+        if attr == '__dict__' and isinstance(base, SV) and isinstance(base.ty, TRef) \
+                and self.classes.field(base.ty.cls, '_dict')[0] is not None:
+            attr = '_dict'
         if isinstance(base, Entity):
             return self.entity_attr(st, base, attr, node)
         base = self.unwrap_opt(st, base, node, '.' + attr)
